@@ -1,6 +1,7 @@
 package eval
 
 import (
+	"math"
 	"strconv"
 
 	"fortio.org/log"
@@ -40,6 +41,15 @@ func convertObjectToASTNode(obj object.Object) ast.Node {
 	// A function called during the expansion can return its integer parameter as a live register (or a reference).
 	switch obj := object.Value(obj).(type) {
 	case object.Integer:
+		if obj.Value < 0 && obj.Value != math.MinInt64 {
+			// What the parser makes of -5: a prefix minus on 5. A literal whose text starts with '-' printed as
+			// v--5 after a binary minus (read back as v-- then 5), and the tree differed from its own source text.
+			r := ast.IntegerLiteral{Val: -obj.Value}
+			r.Token = token.Intern(token.INT, strconv.FormatInt(-obj.Value, 10))
+			p := ast.PrefixExpression{Right: &r}
+			p.Token = token.ByType(token.MINUS)
+			return &p
+		}
 		t := token.Intern(token.INT, strconv.FormatInt(obj.Value, 10))
 		r := ast.IntegerLiteral{Val: obj.Value}
 		r.Token = t
